@@ -332,6 +332,18 @@ func c04CheckE2E(c c04E2ECase) engine.Result {
 						res.Failf("adaptationfield.OPCR|read-back", "afLen %d: got % x err %v", afLen, b, err)
 					}
 				}
+				// the packet's own adaptation field handed back to it (SetAdaptationField with an argument that
+				// aliases the receiver) is a no-op: same bytes, same clocks
+				{
+					snap := p
+					if own, oerr := p.AdaptationField(); oerr == nil {
+						res.Evals++
+						if serr := p.SetAdaptationField(own); serr != nil || p != snap {
+							res.Failf(c.Kind+"|SetAdaptationField-with-the-packet's-own-field", "afLen %d value %d: err %v, packet % x -> % x", afLen, c.V, serr, snap[:20], p[:20])
+							p = snap
+						}
+					}
+				}
 				// a request that cannot be honoured (no room for the other clock) is refused and leaves the clock
 				// that is there readable and the packet unchanged
 				if c.Kind != "af-both" && afLen < 13 {
@@ -449,6 +461,57 @@ func c04CheckE2E(c c04E2ECase) engine.Result {
 					want := packet.Packet(ref.BuildPacket(h, m, 20, payload))
 					if err != nil || p != want {
 						res.Failf(c.Kind+"|packet-bytes-over-equivalent-prior", "value %d set over a slot holding % x (which decodes to the same value): err %v, packet % x want % x", c.V, prior, err, p[4:24], want[4:24])
+					}
+				}
+			}
+			// clocks set on an adaptation-field-only packet (adaptation_field_length 183) survive giving the
+			// packet a payload (SetAdaptationFieldControl(3), then SetPayload), and survive taking it away again
+			{
+				af := packet.NewAdaptationField()
+				p := (*packet.Packet)(af)
+				var wantP, wantO uint64
+				ok := true
+				if c.Kind != "af-opcr" {
+					ok = ok && af.SetHasPCR(true) == nil && af.SetPCR(c.V) == nil
+					wantP = c.V
+				}
+				if c.Kind != "af-pcr" {
+					wantO = c.V
+					if c.Kind == "af-both" {
+						wantO = (c.V*7 + 299) % (uint64(1) << 33 * 300)
+					}
+					ok = ok && af.SetHasOPCR(true) == nil && af.SetOPCR(wantO) == nil
+				}
+				if !ok {
+					res.Failf("NewAdaptationField|clock-setters-refused", "kind %s", c.Kind)
+				}
+				clocks := func(step string) {
+					if c.Kind != "af-opcr" {
+						if got, err := af.PCR(); err != nil || got != wantP {
+							res.Failf("PCR|read-back-after-"+step, "PCR %d reads back %d (err %v)", wantP, got, err)
+						}
+					}
+					if c.Kind != "af-pcr" {
+						if got, err := af.OPCR(); err != nil || got != wantO {
+							res.Failf("OPCR|read-back-after-"+step, "OPCR %d reads back %d (err %v)", wantO, got, err)
+						}
+					}
+				}
+				res.Evals++
+				clocks("set-on-af-only-packet")
+				if err := p.SetAdaptationFieldControl(packet.PayloadAndAdaptationFieldFlag); err != nil {
+					res.Failf("SetAdaptationFieldControl|af-only-to-payload|error", "%v", err)
+				} else {
+					clocks("payload-flag-added")
+					if _, err := p.SetPayload([]byte{1, 2, 3, 4}); err != nil {
+						res.Failf("SetPayload|after-payload-flag-added|error", "%v", err)
+					}
+					clocks("payload-set")
+					if got, err := p.Payload(); err != nil || !bytes.Equal(got, []byte{1, 2, 3, 4}) {
+						res.Failf("SetPayload|after-payload-flag-added|read-back", "payload % x err %v", got, err)
+					}
+					if err := p.SetAdaptationFieldControl(packet.AdaptationFieldFlag); err == nil {
+						clocks("payload-flag-removed")
 					}
 				}
 			}
